@@ -16,7 +16,11 @@ Definition event_ok (c : case) (k : nat) (e : event) (at_ : nat) : bool :=
   match e with
   | EvDropColl cid _ =>
       (* every shard has read its drop message; no second request *)
-      forallb (fun spch => fed_by ls cid spch at_ (fun m => mkind_eqb (m_kind m) KDropColl)) (shards_of ls cid)
+      (* every shard has read its drop message, or the catalog listed the collection as dropped when it was started on a task
+         resumed from positions (then every shard handler generates the message itself) *)
+      (forallb (fun spch => fed_by ls cid spch at_ (fun m => mkind_eqb (m_kind m) KDropColl)) (shards_of ls cid)
+       || existsb (fun il => Nat.leb (fst il) at_ && match snd il with StartColl ci => Z.eqb (ci_id ci) cid && ci_dropped ci | _ => false end)
+                  (combine (seq 0 (List.length ls)) ls))
       && negb (match shards_of ls cid with [] => true | _ => false end)
       && Nat.eqb (List.length (filter (fun e' => match e' with EvDropColl c' _ => Z.eqb c' cid | _ => false end) (c_events c))) 1
       (* nothing for the collection afterwards *)
